@@ -118,11 +118,11 @@ class Interp:
         return SElem(z3.Int(self.fresh(prefix)), sort)
 
     # ------------------------------------------------------------------ obligations
-    def check(self, kind, goal, node=None, detail="", assume=True):
+    def check(self, kind, goal, node=None, detail="", assume=True, auxiliary=False):
         name = f"{self.target}#{kind}"
         if node is not None:
             name += "@" + anchor(node)
-        return self.path.prove(name, goal, detail, assume=assume)
+        return self.path.prove(name, goal, detail, assume=assume, auxiliary=auxiliary)
 
     def assume(self, c):
         self.path.assume(c)
@@ -549,7 +549,11 @@ class Interp:
         # ghost state at loop entry stays available to the invariant (it is not havocked)
         self.ghost["entry:" + lname] = {k_: v_ for k_, v_ in self.ghost.items() if not k_.startswith("entry:")}
         st0 = LoopState(self, frame, k=lo, entry=entry)
-        self.check(f"inv:init:{lname}", _conj(spec.inv(st0)), None)
+        # in a function whose loops are no longer the recorded ones a (header-matched) loop contract is scaffolding that may
+        # not fit any more: its invariants failing leaves the unit undecided, only postconditions can be violated
+        aux = not _check_loop_shape(frame.func)
+        if not self.check(f"inv:init:{lname}", _conj(spec.inv(st0)), None, auxiliary=aux) and aux:
+            self.unsupported(f"the loop contract of {fn} {lname} was written for an earlier shape of the function and does not hold on entry", node)
         # havoc
         assigned = _assigned_names(node.body) | (_target_names(node.target) if is_for else set())
         mode = self.path.choose(2)
@@ -610,7 +614,8 @@ class Interp:
             if spec.lemmas is not None:
                 for fact in spec.lemmas(st1):
                     self.path.assume(fact, check=False)
-            self.check(f"inv:step:{lname}", _conj(spec.inv(st1)), None)
+            if not self.check(f"inv:step:{lname}", _conj(spec.inv(st1)), None, auxiliary=aux) and aux:
+                self.unsupported(f"the loop contract of {fn} {lname} was written for an earlier shape of the function and is not preserved", node)
             if not is_for and not spec.no_variant:
                 if spec.decreases is None:
                     self.path.fail(f"{self.target}#variant:{lname}", "no variant given")
